@@ -7,4 +7,6 @@ require (
 	golang.org/x/sys v0.11.0
 )
 
+require github.com/kballard/go-shellquote v0.0.0-20180428030007-95032a82bc51 // indirect
+
 replace github.com/elastic/go-libaudit/v2 => /repo
